@@ -160,6 +160,7 @@ class SpecFn:
         self.recursive = False
         self.axioms_only = False
         self.nonneg = False       # result is >= 0 (must be backed by a lemma `<name>_nonneg`)
+        self.ghost = None         # symbolically: the ghost field of the first argument; natively: the function body
 
 
 def ann_str(a):
@@ -260,6 +261,8 @@ class World:
                                         sf.axioms_only = ast.literal_eval(kw.value)
                                     if kw.arg == "nonneg":
                                         sf.nonneg = ast.literal_eval(kw.value)
+                                    if kw.arg == "ghost":
+                                        sf.ghost = ast.literal_eval(kw.value)
                         self.specs[sf.name] = sf
                     elif "lemma" in decs:
                         self.lemmas[st.name] = Lemma(st, path)
@@ -629,6 +632,10 @@ class World:
             if a.kind() == "ref" and env[pn].kind() == "ref":
                 # keep the more precise class and the pinned (old) heap of the actual argument
                 env[pn] = V(a.ty if a.ty[1] is not None else env[pn].ty, a.t, aux=a.aux, exact=a.exact)
+        if sf.ghost is not None:
+            obj = env[sf.params[0][0]]
+            cname, attr = sf.ghost.split(".", 1)
+            return fv.load_field(V(("ref", cname), obj.t, aux=obj.aux), attr, ctx.heap)
         body = fn_return_expr(sf.node) if not sf.axioms_only else None
         if not sf.recursive and not sf.axioms_only:
             v = fv.eval(body, Ctx(env, ctx.heap, spec=True, fuel=ctx.fuel))
@@ -1239,7 +1246,12 @@ class World:
             a1 = fv.list_arr(l, heap)
             v = fv.coerce(args[1], l.ty[1])
             i = z3.Int("i!ins")
-            fv.set_list_arr(l, z3.Lambda([i], z3.If(i == 0, v.t, z3.Select(a1, i - 1))))
+            # a fresh array defined pointwise (a quantified definition is more robust for z3 than a lambda here)
+            na = z3.Const(f"ins_arr!{next(fv.ctr)}", a1.sort())
+            fv.assume(z3.Select(na, 0) == v.t)
+            fv.assume(z3.ForAll([i], z3.Implies(i >= 1, z3.Select(na, i) == z3.Select(a1, i - 1)),
+                                patterns=[z3.Select(na, i)]))
+            fv.set_list_arr(l, na)
             fv.set_list_len(l, n + 1)
             return NONE
         if m == "pop":
